@@ -250,7 +250,11 @@ theorem processHeader_hdr_rule (s : State) (b : BlockAbs) (n : Node) (hl : looku
           have : (State.wsum { s1 with bestHdr := b.hash } b.hash) = s1.wsum b.hash := rfl
           rw [this, ← hw, ← hc]
           omega
-  cases res <;> first | exact hupd | exact Or.inl hc
+  cases res <;> first
+    | exact Or.inl hc
+    | (simp only []; split
+       · exact Or.inl hc
+       · exact hupd)
 
 /-- every op other than a header delivery leaves the best-header view untouched -/
 theorem step_hdr_frame (s : State) (o : Op) (hno : ∀ b, o ≠ .header b) : (step s o).1.bestHdr = s.bestHdr := by
